@@ -189,6 +189,16 @@ def gen(rng, i, ctx):
         for l in r['lines']:
             if l['heights'] is not None and rng.random() < 0.12:
                 l['heights'] = [[0.0, 0.0], [0.04, 0.02], [0.0, 0.049], [0, 0]][int(rng.integers(0, 4))]
+    # (round 5) negative heights (baseline outside the outline), outlines given as explicitly closed rings or closing only after rounding
+    for r in regions:
+        for l in r['lines']:
+            if l['heights'] is not None and rng.random() < 0.1:
+                l['heights'] = [[-3.2, 5.0], [-0.04, 1.0], [4.0, -2.5], [-12.0, -0.3]][int(rng.integers(0, 4))]
+            if rng.random() < 0.12:
+                first = l['polygon'][0]
+                l['polygon'] = l['polygon'] + ([list(first)] if rng.random() < 0.6 else [[first[0] + 0.3, first[1] - 0.2]])
+        if rng.random() < 0.1:
+            r['polygon'] = r['polygon'] + [list(r['polygon'][0])]
     case['edits'] = [{'kind': EDITS[int(rng.integers(0, len(EDITS)))], 'a': int(rng.integers(0, 1000)), 'b': int(rng.integers(0, 1000))} for _ in range(int(rng.integers(1, 4)))]
     return case
 
